@@ -52,6 +52,15 @@ fn run_case(cid: usize, n: usize, edges: &[(usize, usize, Option<i64>)]) -> J {
         out.insert("dijkstra".into(), json!(dj.iter().map(|r| dm(&g, &r.distances)).collect::<Vec<_>>()));
         out.insert("paths".into(), json!(g.ids.iter().enumerate().map(|(i, s)| g.ids.iter().map(|t| path(&g, dj[i].path_to(*s, *t))).collect::<Vec<_>>()).collect::<Vec<_>>()));
         out.insert("astar".into(), json!(g.ids.iter().map(|s| g.ids.iter().map(|t| path(&g, astar(st, *s, *t, w, |_| 0.0).map(|x| x.1))).collect::<Vec<_>>()).collect::<Vec<_>>()));
+        // A* with an admissible but generally inconsistent heuristic: h(v) = a pseudo-random fraction of the true remaining
+        // distance (0 where the target is unreachable); the documented requirement is admissibility only
+        let to_t: Vec<Vec<f64>> = g.ids.iter().map(|t| g.ids.iter().map(|v| dj[g.ids.iter().position(|x| x == v).unwrap()].distances.get(t).copied().unwrap_or(0.0)).collect()).collect();
+        out.insert("astar_h".into(), json!(g.ids.iter().enumerate().map(|(si, s)| g.ids.iter().enumerate().map(|(ti, t)| {
+            let h = |v: NodeId| -> f64 { let vi = g.ids.iter().position(|x| *x == v).unwrap(); let d = to_t[ti][vi]; let f = [0.0, 1.0, 1.0, 0.0, 0.5][(vi * 7 + ti * 3 + si * 5 + cid) % 5]; (d * f).floor() };
+            let r = astar(st, *s, *t, w, h);
+            json!({"d": r.as_ref().map(|x| if x.0.fract() == 0.0 { x.0 as i64 } else { -7 }).unwrap_or(-1), "p": path(&g, r.map(|x| x.1))})
+        }).collect::<Vec<_>>()).collect::<Vec<_>>()));
+        out.insert("astar_d".into(), json!(g.ids.iter().map(|s| g.ids.iter().map(|t| astar(st, *s, *t, w, |_| 0.0).map(|x| if x.0.fract() == 0.0 { x.0 as i64 } else { -7 }).unwrap_or(-1)).collect::<Vec<_>>()).collect::<Vec<_>>()));
         out.insert("bellman".into(), json!(g.ids.iter().map(|s| dm(&g, &bellman_ford(st, *s, w).distances)).collect::<Vec<_>>()));
         let fw = floyd_warshall(st, w);
         out.insert("floyd".into(), json!(g.ids.iter().map(|s| g.ids.iter().map(|t| fw.distance(*s, *t).map(|x| if x.is_finite() { x as i64 } else { -1 }).unwrap_or(-1)).collect::<Vec<_>>()).collect::<Vec<_>>()));
@@ -126,6 +135,15 @@ pub fn main(o: &Opts) -> i32 {
         let m = rng.random_range(0..=o.usize("rm", 7));
         let edges: Vec<_> = (0..m).map(|_| (rng.random_range(1..=n), rng.random_range(1..=n), match rng.random_range(0..5) { 0 => None, 1 => Some(0), k => Some(k as i64 - 1) })).collect();
         out.emit(&run_case(cid, n, &edges));
+    }
+    // diamonds with a tail (two routes of different cost meet before the target) plus noise edges: the shape on which
+    // re-opening a node matters for A* with an inconsistent heuristic, and on which tie-breaking in Dijkstra / Prim shows
+    for _ in 0..o.usize("diamonds", 60) {
+        cid += 1;
+        let w = |rng: &mut StdRng| Some(rng.random_range(1..=3i64));
+        let mut edges = vec![(1, 2, w(&mut rng)), (2, 4, w(&mut rng)), (1, 3, w(&mut rng)), (3, 4, w(&mut rng)), (4, 5, Some(rng.random_range(1..=5)))];
+        for _ in 0..rng.random_range(0..=2) { edges.push((rng.random_range(1..=5), rng.random_range(1..=5), w(&mut rng))); }
+        out.emit(&run_case(cid, 5, &edges));
     }
     let n = out.n;
     out.finish();
